@@ -3,7 +3,7 @@
 # check(s) that are expected to catch it, reverts, and prints one line per change.  /repo must be clean and no other check may run meanwhile.
 cd /verif || exit 2
 if [ -n "$(git -C /repo status --short)" ]; then echo "/repo is not clean"; exit 2; fi
-dirs=("$@"); [ ${#dirs[@]} -eq 0 ] && dirs=($(ls seeded))
+dirs=("$@"); [ ${#dirs[@]} -eq 0 ] && dirs=($(ls -d seeded/*/ | xargs -n1 basename))
 for d in "${dirs[@]}"; do
   prop=$(python3 -c "import json;print(json.load(open('/verif/seeded/$d/meta.json'))['property'])")
   case "$d" in
